@@ -130,7 +130,7 @@ class L2Cost(BaseCost):
         y: None
             Ignored. Included for API consistency by convention.
         """
-        X = as_2d_array(X)
+        X = as_2d_array(X, dtype=np.float64)
         self._mean = self._check_param(self.param, X)
 
         self.sums_ = col_cumsum(X, init_zero=True)
